@@ -328,9 +328,8 @@ fn scenario_contract(args: &Args, report: &mut Report) {
     {
         let mut c = clients[0].lock().unwrap();
         let b = scrape_bytes(ids.valid[0][0], 910_000, &[port0_hash, hash_n(0x54, 2)]);
-        c.send(&b).unwrap();
-        let got = c.recv_some(1, Duration::from_millis(1000));
-        match got.first().and_then(|(b, _)| decode_response(b, true)) {
+        // (decided by the tracker's progress, not by the clock: see `ask`)
+        match ask(&mut c, &b, 1000) {
             Some(RefResponse::Scrape { stats, .. }) if stats.len() == 2 => {
                 report.eval();
                 if stats[0] != (0, 0, 0) {
